@@ -408,6 +408,9 @@ class Gen(object):
             acts.append(("stall", 0.4))
         if F["stale_handle"] and len(w.by_addr.get(addr, [])) > 1:
             acts.append(("stale", 0.5))
+        if fam == "ids" and not getattr(self, "_placed", False) and any(r.pending for r in s.reqs) and rng.random() < 0.3:
+            self._placed = True
+            return {"op": "sim.set_id", "value": rng.choice([65530, 65531, 65532, 65533, 65534, 65535])}
         k = _w(rng, acts)
         if k == "deliver":
             return {"op": "net.deliver", "addr": addr, "n": _w(rng, [(None, 5), (1, 2), (rng.randint(1, 8), 3)])}
